@@ -43,7 +43,7 @@ TIMEOUT = {'quick': 300, 'thorough': 3000}
 
 FATAL_R = ['H', 'C', 'M', 'A', 'E', 'X']            # usable in both modes
 MODE_U_ONLY = ['S', 'R', 'K', 'T']
-HARMLESS = ['unknown', 'noparam', 'ainit_fail', 'restore_fail']
+HARMLESS = ['unknown', 'noparam', 'ainit_fail', 'restore_fail', 'storage_read_fail']
 
 
 class SrcError(Exception):
@@ -186,6 +186,9 @@ def run_case(case, ctx):
         if case.get('harmless') == 'restore_fail':
             probes.make_probe('rf', {'persist', 'initdef'}, hist, {'restore': 'raise'},
                               persistent=True, initdef=1)
+        if case.get('harmless') == 'storage_read_fail':
+            # the storage back-end fails to read the saved state of this block
+            probes.make_probe('rf', {'persist', 'initdef'}, hist, {}, persistent=True, initdef=1)
         if case.get('slow_init'):
             # persistent blocks that get their state only in the second initialisation step
             # (after the asynchronous one): not initialised yet when the stop request arrives
@@ -238,14 +241,41 @@ def run_case(case, ctx):
                 # at the moment they reach the simulator, not when the harness triggered them
                 # (a combinational block in between acts only when the simulator runs it)
                 for i, (kind, _t) in enumerate(actions):
-                    if kind in ('E', 'EC', 'EI', 'HN') and f"'e{i}'" in str(exc) \
-                            and ('E', i) not in fired:
+                    if kind == 'HN' and f"'e{i}'" in str(exc) and ('E', i) not in fired:
                         fired.append(('E', i))
                         break
             return orig_abort(exc)
         circuit.abort = abort
         if case.get('harmless') == 'restore_fail':
             circuit.set_persistent_data({"<Probe_initdef_persist 'rf'>": 5, 'edzed-stop-time': 0.0})
+        elif case.get('harmless') == 'storage_read_fail':
+            import collections.abc
+
+            class FailingStorage(collections.abc.MutableMapping):
+                # (a real mapping class like shelve.Shelf: get(), pop(), 'in' ... are built on
+                # the primitive operations)
+                def __init__(self, init):
+                    self._d = dict(init)
+
+                def __getitem__(self, key):
+                    if 'rf' in str(key):
+                        hist.log('storage_read_error', key)
+                        raise OSError(f"vf: record {key!r}: checksum error")
+                    return self._d[key]
+
+                def __setitem__(self, key, value):
+                    self._d[key] = value
+
+                def __delitem__(self, key):
+                    del self._d[key]
+
+                def __iter__(self):
+                    return iter(self._d)
+
+                def __len__(self):
+                    return len(self._d)
+            circuit.set_persistent_data(FailingStorage(
+                {"<Probe_initdef_persist 'rf'>": 5, 'edzed-stop-time': 0.0}))
         elif case.get('slow_init'):
             circuit.set_persistent_data({'edzed-stop-time': 0.0})
         t0 = loop.time()
@@ -289,6 +319,21 @@ def run_case(case, ctx):
                         fired.append(('T', i))
                         os.kill(os.getpid(), signal.SIGTERM)
                     loop.call_at(when, sigterm)
+            # a look at the circuit 0.25 s after the first termination cause: whatever it was, it
+            # has been delivered by then and the clean-up (0.5 s stop_async) is still running
+            if actions:
+                def probe_ready():
+                    if not fired:
+                        return      # nothing has happened (e.g. the cause was refused)
+                    try:
+                        edzed.ExtEvent(objs['pinger'], 'ping').send()
+                        sent = 'delivered'
+                    except edzed.EdzedInvalidState:
+                        sent = 'refused'
+                    except Exception as err:    # pylint: disable=broad-except
+                        sent = repr(err)
+                    res['during_cleanup'] = (circuit.is_ready(), sent, list(fired))
+                loop.call_at(t0 + min(t for _k, t in actions) + 0.25, probe_ready)
             # harmless faults at t=0.5
             h = case.get('harmless')
             if h in ('unknown', 'noparam'):
@@ -401,6 +446,21 @@ def run_case(case, ctx):
         if lat:
             lrng = ctx.rng('lat', core.case_hash(case))
             loop.latency = lambda: lrng.random() * lat
+    # 'abort' control events are logged when they ARRIVE at the simulator control block (record
+    # and delegate at its event() entry point), whatever the block then does with them
+    from edzed.blocklib import sblocks1
+    inherited_event = sblocks1.ControlBlock.event
+
+    def ctrl_event(self, etype, /, **data):
+        if etype == 'abort':
+            for i, (kind, _t) in enumerate(actions):
+                if kind in ('E', 'EC', 'EI') and data.get('source') == f"e{i}" \
+                        and ('E', i) not in fired:
+                    fired.append(('E', i))
+                    break
+        return inherited_event(self, etype, **data)
+    sblocks1.ControlBlock.event = ctrl_event
+
     def fallback(_signo, _frame):
         # SIGTERM sent while edzed's own handler is not installed (run() restores the previous
         # handler before it awaits the end of the clean-up): must not kill the worker
@@ -413,6 +473,7 @@ def run_case(case, ctx):
         loop, _, exc = vloop.run(main, setup=setup)
     finally:
         signal.signal(signal.SIGTERM, old_handler)
+        del sblocks1.ControlBlock.event     # the inherited SBlock.event again
     edzed.reset_circuit()
     if exc is not None and not isinstance(exc, vloop.Deadlock):
         raise exc
@@ -440,6 +501,14 @@ def judge(case, res, fired, excs, hist, ctx):
     ctx.count('not_ready_after_end')
     if res.get('ready_final'):
         raise core.Violation('ready-after-the-end', f"{where}: is_ready() is true after the end")
+    dc = res.get('during_cleanup')
+    if dc is not None and not (case.get('slow_init') and mode != 'R'):
+        ctx.count('not_ready_during_cleanup')
+        if dc[0] or dc[1] != 'refused':
+            raise core.Violation(
+                'ready-while-stopping',
+                f"{where}: 0.25 s after the first termination cause (fired so far: {dc[2]}) "
+                f"is_ready() = {dc[0]}, an external event was {dc[1]}")
     # harmless faults
     if case.get('harmless') and (not fired or min((t for _, t in case['actions']), default=99) >= 1):
         ok = res.get('serving_at_0.7')
